@@ -40,9 +40,12 @@ fn tree(v: &Value) -> String {
 
 fn id(rng: &mut Prng) -> [u8; 20] {
     let mut b = [0u8; 20];
-    match rng.below(4) {
+    match rng.below(6) {
         0 => {}
         1 => b = [0xff; 20],
+        // bytes that are JSON structure when they stand outside a string
+        4 => b = [b'['; 20],
+        5 => b = *b"{{{{{{{{{{[[[[[[[[[[",
         2 => {
             for (i, x) in b.iter_mut().enumerate() {
                 *x = (i as u8).wrapping_mul(13).wrapping_add(rng.below(256) as u8)
@@ -68,6 +71,17 @@ fn sdp(rng: &mut Prng) -> String {
             }
         }
         return m;
+    }
+    if rng.chance(1, 4) {
+        // texts that END in a backslash / an escaped quote, or are full of brackets: whatever scans
+        // the JSON text for structure must know exactly where each string ends
+        return match rng.below(5) {
+            0 => "ends in a backslash\\".to_string(),
+            1 => "\\".to_string(),
+            2 => "[".repeat(40),
+            3 => format!("{}\\", "{".repeat(40)),
+            _ => format!("x\\\"{}", "[{".repeat(20)),
+        };
     }
     rng.pick(&["", "v=0\r\no=- 1 2 IN IP4 127.0.0.1", "q\"uote\\back/slash", "\u{0}\u{1}\u{1f}\u{7f}", "\u{1F600} non-BMP \u{10FFFF}", "h\u{e9}llo \u{2028}\u{2029}"])
         .to_string()
@@ -113,7 +127,38 @@ fn in_term(m: &InMessage) -> String {
     }
 }
 
+/// messages built to confuse anything that scans the JSON text for structure: an early string ends
+/// in a backslash, later strings hold more than 32 brackets
+fn gen_in_adversarial(rng: &mut Prng) -> InMessage {
+    let tail = *rng.pick(&["\\", "a\\", "\"\\", "\\\\\\"]);
+    let brackets: [[u8; 20]; 3] = [[b'['; 20], [b'{'; 20], *b"{{{{{{{{{{[[[[[[[[[["];
+    let n_off = 2 + rng.below(4) as usize;
+    let with_answer = rng.chance(1, 2);
+    InMessage::AnnounceRequest(AnnounceRequest {
+        action: AnnounceAction::Announce,
+        info_hash: InfoHash(*rng.pick(&[*b"ABCDEFGHIJKLMNOPQRS\\", [b'h'; 20]])),
+        peer_id: PeerId(*rng.pick(&[*b"abcdefghijklmnopqrs\\", [b'p'; 20]])),
+        bytes_left: Some(1),
+        event: None,
+        offers: Some(
+            (0..n_off)
+                .map(|i| AnnounceRequestOffer {
+                    offer: RtcOffer { t: RtcOfferType::Offer, sdp: if i == 0 { tail.to_string() } else { sdp(rng) } },
+                    offer_id: OfferId(*rng.pick(&brackets)),
+                })
+                .collect(),
+        ),
+        numwant: None,
+        answer: if with_answer { Some(RtcAnswer { t: RtcAnswerType::Answer, sdp: tail.to_string() }) } else { None },
+        answer_to_peer_id: if with_answer { Some(PeerId(*rng.pick(&brackets))) } else { None },
+        answer_offer_id: if with_answer { Some(OfferId(*rng.pick(&brackets))) } else { None },
+    })
+}
+
 fn gen_in(rng: &mut Prng) -> InMessage {
+    if rng.chance(1, 8) {
+        return gen_in_adversarial(rng);
+    }
     if rng.chance(2, 3) {
         let n_off = rng.below(3) as usize;
         let with_answer = rng.chance(1, 3);
@@ -175,6 +220,29 @@ fn out_term(m: &OutMessage) -> String {
 }
 
 fn gen_out(rng: &mut Prng) -> OutMessage {
+    if rng.chance(1, 8) {
+        // see gen_in_adversarial
+        let brackets: [[u8; 20]; 3] = [[b'['; 20], [b'{'; 20], *b"{{{{{{{{{{[[[[[[[[[["];
+        let tail_id = *b"abcdefghijklmnopqrs\\";
+        let tail_sdp = rng.pick(&["\\", "v=0\\"]).to_string();
+        return if rng.chance(1, 2) {
+            OutMessage::AnswerOutMessage(AnswerOutMessage {
+                action: AnnounceAction::Announce,
+                peer_id: PeerId(if rng.chance(1, 2) { tail_id } else { *rng.pick(&brackets) }),
+                info_hash: InfoHash(*rng.pick(&brackets)),
+                answer: RtcAnswer { t: RtcAnswerType::Answer, sdp: tail_sdp },
+                offer_id: OfferId(*rng.pick(&brackets)),
+            })
+        } else {
+            OutMessage::OfferOutMessage(OfferOutMessage {
+                action: AnnounceAction::Announce,
+                peer_id: PeerId(if rng.chance(1, 2) { tail_id } else { *rng.pick(&brackets) }),
+                info_hash: InfoHash(*rng.pick(&brackets)),
+                offer: RtcOffer { t: RtcOfferType::Offer, sdp: tail_sdp },
+                offer_id: OfferId(*rng.pick(&brackets)),
+            })
+        };
+    }
     match rng.below(5) {
         0 => OutMessage::OfferOutMessage(OfferOutMessage {
             action: AnnounceAction::Announce,
